@@ -113,3 +113,29 @@ func failRapid(rt *rapid.T, r *core.Rec, c *core.Case, err error) {
 	r.Fail(c, err)
 	rt.Fatalf("%v", err)
 }
+
+// describeSteps renders a history for the evidence samples (step kind, parameters and a
+// short preview of each document).
+func describeSteps(hist []core.Case) []string {
+	var out []string
+	for i := range hist {
+		if i >= 40 {
+			out = append(out, fmt.Sprintf("... %d more steps", len(hist)-i))
+			break
+		}
+		d := hist[i].Kind
+		if len(hist[i].Ints) > 0 {
+			d += fmt.Sprint(hist[i].Ints)
+		}
+		if len(hist[i].In) > 0 {
+			in := hist[i].In
+			if len(in) > 48 {
+				d += " " + strconv.Quote(string(in[:24])) + fmt.Sprintf("...(%d bytes)", len(in))
+			} else {
+				d += " " + strconv.Quote(string(in))
+			}
+		}
+		out = append(out, d)
+	}
+	return out
+}
